@@ -36,6 +36,11 @@ impl Bus for Overlay {
   }
 }
 
+/// The DMA register of every step / block world holds this page (no transfer armed): not its
+/// power-on value 0xFF, which is also what an unassigned I/O register reads as, so that a
+/// load which reaches the device page without going through the bus is seen.
+pub const BASE_DMA_PAGE: u8 = 0xC1;
+
 pub fn is_plain_ram(addr: u16) -> bool {
   matches!(addr, 0x8000..=0xDFFF | 0xFE00..=0xFE9F | 0xFF80..=0xFFFE)
 }
@@ -138,6 +143,8 @@ impl StepWorld {
     }
     let mut core = world::flat_core(rom);
     Self::fill_ram(&mut core);
+    crate::mem::memory_write_byte(&mut core.memory as *mut MemoryAreas, 0xFF46, BASE_DMA_PAGE);
+    core.memory.oam_dma = None;
     let mem = &core.memory as *const MemoryAreas;
     StepWorld { core, ov: Overlay { mem, writes: Vec::with_capacity(8), olds: Vec::with_capacity(8) }, dirty_io: false }
   }
@@ -300,7 +307,7 @@ impl StepWorld {
       let ie = memory_read_byte(&self.core.memory as *const MemoryAreas, 0xFFFF);
       self.core.memory.io = IO::new();
       crate::mem::memory_write_byte(&mut self.core.memory as *mut MemoryAreas, 0xFFFF, ie);
-      crate::mem::memory_write_byte(&mut self.core.memory as *mut MemoryAreas, 0xFF46, 0xFF);
+      crate::mem::memory_write_byte(&mut self.core.memory as *mut MemoryAreas, 0xFF46, BASE_DMA_PAGE);
       self.core.memory.oam_dma = None;
     }
   }
